@@ -20,7 +20,7 @@ RULE = (
     "thorough tier widens every bound by one.  (b) Random larger trees (from the description "
     "generator) with none or exactly one injected violation of each rule at a random position, plus "
     "plug-in clauses: unknown-struct bindings, equal CAN ids (same bus / different buses / CAN + non-"
-    "CAN), CAN message sizes 57..72 bits with the excess in a scalar, array, enum or nested struct.  "
+    "CAN), CAN message sizes 57..72 bits with the excess in a scalar, array, array of structs, enum or nested struct.  "
     "(c) 3-6 random permutations of the declaration lists of every tree.  Each tree is verified "
     "with the general check set and, where relevant, with the DBC and C plug-in checks registered.  "
     "Oracle: vf/ref/wellformed.py (the specification written twice; disagreement between the two "
@@ -415,7 +415,7 @@ def plugin_trees(r):
     out.append((T([can("Pa", "Pa", a), can("Pa2", "Pa", b), can("Pb", "Pb", a)]), "three-can-two-equal"))
     # sizes 57..72 with the excess in different places
     total = r.randint(57, 72)
-    where = r.choice(["scalar", "array", "enum", "nested", "two-scalars"])
+    where = r.choice(["scalar", "array", "enum", "nested", "two-scalars", "array-of-structs"])
     en = {"name": "Pe", "values": [("lo", 0), ("hi", r.choice([1, 5, 200, 300]))]}
     ew = max(1, en["values"][1][1].bit_length())
     if where == "scalar":
@@ -437,6 +437,19 @@ def plugin_trees(r):
     elif where == "enum":
         big = {"name": "Pbig", "fields": [{"name": "e", "id": 0, "type": ("enum", "Pe")}, {"name": "a", "id": 1, "type": ("u", min(64, total - ew))}] + ([{"name": "b", "id": 2, "type": ("u", total - ew - 64)}] if total - ew > 64 else [])}
         extra, enums = [big], [en]
+    elif where == "array-of-structs":
+        n = r.choice([2, 3, 4])
+        w = r.randint(4, total // n - 1)
+        a = r.randint(1, w - 1)
+        inner = {"name": "Pel", "fields": [{"name": "p", "id": 0, "type": ("u", a)}, {"name": "q", "id": 1, "type": ("i", w - a)}]}
+        rest = total - n * w
+        fields = [{"name": "els", "id": 0, "type": ("arr", ("struct", "Pel"), n)}]
+        if rest:
+            fields.append({"name": "r", "id": 1, "type": ("u", min(rest, 64))})
+            if rest > 64:
+                fields.append({"name": "r2", "id": 2, "type": ("u", rest - 64)})
+        big = {"name": "Pbig", "fields": fields}
+        extra, enums = [inner, big], []
     else:
         inner = {"name": "Pin", "fields": [{"name": "p", "id": 0, "type": ("u", 20)}, {"name": "q", "id": 1, "type": ("i", 13)}]}
         big = {"name": "Pbig", "fields": [{"name": "n", "id": 0, "type": ("struct", "Pin")}, {"name": "a", "id": 1, "type": ("u", total - 33)}]}
